@@ -147,6 +147,74 @@ macro_rules! typed_targets {
     };
 }
 
+macro_rules! try_targets {
+    ($typ:expr, $slice:expr; $($t:ty),* $(,)?) => {
+        $(
+            if <$t as scylla_cql_core::deserialize::value::DeserializeValue>::type_check($typ).is_ok() {
+                let _ = std::hint::black_box(<$t as scylla_cql_core::deserialize::value::DeserializeValue>::deserialize($typ, $slice));
+            }
+        )*
+    };
+}
+
+/// Decodes one column value into every typed target of a fixed family whose type_check accepts the column type.
+fn typed_column_family<'f, 'm>(typ: &'m scylla_cql_core::frame::response::result::ColumnType<'m>, slice: Option<scylla_cql_core::deserialize::FrameSlice<'f>>) {
+    use scylla_cql_core::deserialize::value::{ListlikeIterator, MapIterator, UdtIterator, VectorIterator};
+    use scylla_cql_core::value::*;
+    use std::collections::{BTreeMap, BTreeSet, HashSet};
+    try_targets!(typ, slice;
+        bool, i8, i16, i32, i64, f32, f64, String, &str, Vec<u8>, &[u8], bytes::Bytes,
+        uuid::Uuid, CqlTimeuuid, std::net::IpAddr, CqlDate, CqlTime, CqlTimestamp, CqlDuration,
+        CqlVarint, CqlVarintBorrowed, CqlDecimal, CqlDecimalBorrowed, Counter,
+        num_bigint_04::BigInt, num_bigint_03::BigInt, bigdecimal_04::BigDecimal,
+        chrono::NaiveDate, chrono::NaiveTime, chrono::DateTime<chrono::Utc>, time::Date, time::Time, time::OffsetDateTime,
+        Option<CqlValue>, Option<i32>, Option<String>, MaybeEmpty<i32>, MaybeEmpty<i64>, Option<MaybeEmpty<f64>>,
+        Vec<CqlValue>, Vec<i32>, Vec<String>, Vec<Option<CqlValue>>, Vec<Vec<CqlValue>>,
+        HashSet<String>, HashSet<i32>, BTreeSet<String>, BTreeSet<i64>, HashSet<uuid::Uuid>,
+        HashMap<String, CqlValue>, HashMap<i32, CqlValue>, HashMap<String, String>, HashMap<uuid::Uuid, i32>, HashMap<i64, Vec<CqlValue>>,
+        BTreeMap<String, CqlValue>, BTreeMap<i32, i32>, BTreeMap<i64, CqlValue>, BTreeMap<String, Vec<String>>,
+        (Option<CqlValue>,), (Option<CqlValue>, Option<CqlValue>), (Option<CqlValue>, Option<CqlValue>, Option<CqlValue>),
+        (Option<i32>, Option<String>), (Option<CqlValue>, Option<CqlValue>, Option<CqlValue>, Option<CqlValue>, Option<CqlValue>),
+        ListlikeIterator<CqlValue>, ListlikeIterator<i32>, MapIterator<CqlValue, CqlValue>, MapIterator<String, CqlValue>,
+        VectorIterator<CqlValue>, VectorIterator<f32>, Vec<f32>, Vec<f64>, UdtIterator,
+    );
+    // lazy iterators must be driven to exercise their element decoding
+    if <ListlikeIterator<CqlValue> as scylla_cql_core::deserialize::value::DeserializeValue>::type_check(typ).is_ok() {
+        if let Ok(it) = <ListlikeIterator<CqlValue> as scylla_cql_core::deserialize::value::DeserializeValue>::deserialize(typ, slice) {
+            for x in it.take(ROW_CAP) {
+                if std::hint::black_box(x).is_err() {
+                    break;
+                }
+            }
+        }
+    }
+    if <MapIterator<CqlValue, CqlValue> as scylla_cql_core::deserialize::value::DeserializeValue>::type_check(typ).is_ok() {
+        if let Ok(it) = <MapIterator<CqlValue, CqlValue> as scylla_cql_core::deserialize::value::DeserializeValue>::deserialize(typ, slice) {
+            for x in it.take(ROW_CAP) {
+                if std::hint::black_box(x).is_err() {
+                    break;
+                }
+            }
+        }
+    }
+    if <VectorIterator<CqlValue> as scylla_cql_core::deserialize::value::DeserializeValue>::type_check(typ).is_ok() {
+        if let Ok(it) = <VectorIterator<CqlValue> as scylla_cql_core::deserialize::value::DeserializeValue>::deserialize(typ, slice) {
+            for x in it.take(ROW_CAP) {
+                if std::hint::black_box(x).is_err() {
+                    break;
+                }
+            }
+        }
+    }
+    if <UdtIterator as scylla_cql_core::deserialize::value::DeserializeValue>::type_check(typ).is_ok() {
+        if let Ok(it) = <UdtIterator as scylla_cql_core::deserialize::value::DeserializeValue>::deserialize(typ, slice) {
+            for x in it.take(ROW_CAP) {
+                let _ = std::hint::black_box(x);
+            }
+        }
+    }
+}
+
 /// The full decoding pipeline the driver applies to a response frame.
 pub fn decode_all(frame: &[u8], cfg: &DecodeCfg) -> DecodeResult {
     let mut rd: &[u8] = frame;
@@ -266,6 +334,16 @@ pub fn decode_all(frame: &[u8], cfg: &DecodeCfg) -> DecodeResult {
                     (Option<CqlValue>, Option<CqlValue>),
                     (Option<CqlValue>, Option<CqlValue>, Option<CqlValue>),
                 );
+                // every column value through every typed Rust target that passes type_check for its type
+                if let Ok(it) = rows.rows_iter::<scylla_cql_core::deserialize::row::ColumnIterator>() {
+                    for r in it.take(2_000) {
+                        let Ok(cols_it) = r else { break };
+                        for col in cols_it {
+                            let Ok(col) = col else { break };
+                            typed_column_family(col.spec.typ(), col.slice);
+                        }
+                    }
+                }
                 if let Some(e) = row_err {
                     return DecodeResult::Rejected(Stage::Rows, e);
                 }
@@ -612,6 +690,7 @@ fn mutation_label(m: &Mutation) -> String {
         Mutation::HeaderByte { .. } => "mut:header_byte".into(),
         Mutation::Lz4DeclaredLen(_) => "mut:lz4_len".into(),
         Mutation::HugeCount { .. } => "mut:huge_count".into(),
+        Mutation::CellHead { .. } => "mut:cell_head".into(),
     }
 }
 
@@ -861,7 +940,7 @@ pub fn run(ctx: &Ctx, rep: &mut Report) {
         return;
     }
     let workers = ncpu();
-    let (total_cases, muts) = ctx.tier.pick((12_800u64, 20usize), (1_600_000u64, 40usize));
+    let (total_cases, muts) = ctx.tier.pick((6_400u64, 24usize), (1_600_000u64, 40usize));
     let per = total_cases.div_ceil(workers as u64);
     let mut children: Vec<Child> = (0..workers)
         .map(|k| spawn(k, ctx.seed.wrapping_mul(1000).wrapping_add(k as u64), 0, per, muts, &[]))
